@@ -133,6 +133,13 @@ _ext("C16", "creator-element agreement between console and HTML; merge rules for
 _ext("C17", "may-taint analysis: no unescaped dump text in a URL returned by a template function; index/bound rules on the helpers",
      "Every non-constant part of a link passed through a net/url escaper (this rule found and D16 was fixed).")
 _ext("C19", "writer/reader agreement fieldToType vs augmentCall per syntax kind; cache-only-after-successful-parse rule")
+# round 5 additions
+_ext("C01", "the blank-line decision is compared on the line after the indentation prefix is removed (L0/L distinction in the extracted automaton)")
+_ext("C06", "caller's Opts only read (points-to); octahedron rules of the reader: no chunking-dependent panic or slice",
+     "The caller's options are never written; the reader's panics and slices do not depend on how the same bytes are chunked.")
+_ext("C15", "all-iterations rule: every call of every goroutine is walked")
+_ext("C16", "role propagation of the -f/-m expressions from Main to the writers, all paths of Main (NI-flags)")
+_ext("C18", "probe-result rule: a root is recorded only from a probe result that ends with the probed directory (LOC-root-suffix)")
 for k in list(CLAIMED): NA.pop(k, None)
 try:
     exec(open(os.path.join(V, "tools", "manifest_table.py")).read())
